@@ -78,12 +78,18 @@ def gen(seed, tier="quick"):
                 sizes[r.randrange(3)] = a + 1
             val = {"t": "tuple", "c": [{"t": "np", "s": [sizes[0]], "d": "float32"},
                                        {"t": "list", "c": [{"t": "np", "s": [sizes[1]], "d": "float32"}, {"t": "np", "s": [sizes[2]], "d": "float32"}]}]}
+            if r.random() < 0.6:
+                val = {"t": "node", "c": [val]}
+                if r.random() < 0.6:  # the custom flattener raises in one of the sibling calls
+                    scn["faults"] = [{"site": "node.flatten", "k": r.randrange(1, 8), "exc": r.choice(("RuntimeError", "ValueError"))}]
+            scn["extra_leaves"] = [[s_] for s_ in sizes]
             aid = "AT"
         else:
             scn["anns"]["AU1"] = {"k": "arr", "dtype": "Float", "atype": "np", "dims": "c b", "toks": []}
             scn["anns"]["AU2"] = {"k": "arr", "dtype": "Float", "atype": "np", "dims": "c", "toks": []}
             scn["anns"]["AU"] = {"k": "union", "items": ["AU1", "AU2"]}
             val = {"t": "np", "s": r.choice(([2, 9], [2], [3, 3, 3], [r.choice((1, 2, 3))])), "d": "float32"}
+            scn["extra_union_shape"] = val["s"]
             aid = "AU"
         for sib, op in zip(scn["siblings"], scn["threads"][0]):
             f = scn["fns"][sib["fn"]]
@@ -92,12 +98,15 @@ def gen(seed, tier="quick"):
             op["args"].insert(pos, val)
         scn["extra"] = extra
     if mode == "misuse":
-        kind = r.choice(("sym", "q", "struct"))
+        kind = r.choice(("sym", "q", "struct", "brace"))
         for sib, op in zip(scn["siblings"], scn["threads"][0]):
             f = scn["fns"][sib["fn"]]
             pos = r.randrange(len(f["params"]) + 1)
             if kind == "sym":
                 scn["anns"]["AM"] = {"k": "arr", "dtype": "Float", "atype": "np", "dims": "zz+1", "toks": []}
+                v = {"t": "np", "s": [3], "d": "float32"}
+            elif kind == "brace":
+                scn["anns"]["AM"] = {"k": "arr", "dtype": "Float", "atype": "np", "dims": "{zz_not_an_argument}", "toks": []}
                 v = {"t": "np", "s": [3], "d": "float32"}
             elif kind == "q":
                 scn["anns"]["AM"] = {"k": "arr", "dtype": "Float", "atype": "np", "dims": "?q", "toks": []}
@@ -120,10 +129,14 @@ class Observer:
         self.feats = set()
         self.records = []
         self.body0 = 0
+        self.fired0 = 0
+        self.faulted = set()
+        self.full = self.ponly = None
 
     def tc_cb(self, fn, e, args, kwargs):
         run = self.run
-        self.records.append({"fn": getattr(fn, "__name__", "?"), "exc": type(e).__name__, "text": ctxsim.bindings_text(),
+        self.records.append({"fn": getattr(fn, "__name__", "?"), "exc": type(e).__name__ if e is not None else None,
+                             "text": ctxsim.bindings_text(),
                              "stage": "return" if run.body_runs > self.body0 else "parameters"})
 
     def pre(self, interp, run, op, path):
@@ -131,6 +144,7 @@ class Observer:
             self.run = run
             self.records = []
             self.body0 = run.body_runs
+            self.fired0 = len(seams.state().fired)
             seams.state().tc_observer = self.tc_cb
 
     def _v(self, oracle, detail, **sig):
@@ -141,6 +155,9 @@ class Observer:
         if op["op"] != "call":
             return
         seams.state().tc_observer = None
+        if len(seams.state().fired) != self.fired0:
+            self.faulted.add(path)
+            self.stats.inc("calls_with_fault_fired")
         scn = self.scn
         f = scn["fns"][op["fn"]]
         self.stats.inc("evaluations")
@@ -166,9 +183,13 @@ class Observer:
             self._v("error-class", dict(base, what="TypeCheckError is not a TypeError"))
         msg = out["msg"]
         recs = [r_ for r_ in self.records]
-        if not recs:
+        fails = [r_ for r_ in recs if r_["exc"] is not None]
+        if not fails:
             return  # failure was not produced by the typechecker (e.g. signature problem): nothing to compare
-        first = recs[0]
+        first = fails[0]
+        # the live context when the message is formatted: after the last checker invocation of this call
+        # (the localisation loop re-checks parameters one at a time in the same context; re-checks that pass may
+        # add bindings, re-checks that fail roll back) -- nothing else runs between that instant and formatting
         last = recs[-1]
         stage = first["stage"]
         m = re.match(r"Type-check error whilst checking the (parameters|return value) of ([^\n]*?)\.\n", msg + "\n")
@@ -178,6 +199,13 @@ class Observer:
             self._v("message-stage", dict(base, what="stage sentence not found", msg=msg[:300]))
             return
         said = "parameters" if m.group(1) == "parameters" else "return"
+        if not scn.get("misuse") and path not in self.faulted:
+            if self.ponly is None:
+                self.full, self.ponly = _family_model_with_extra(scn)
+            if self.ponly == {"reject"} and (said != "parameters" or out.get("body_runs")):
+                self._v("message-stage", dict(base, what="the parameters violate their annotations, yet the failure was reported for the "
+                                                        "return value / the body was run", said=said, body_runs=out.get("body_runs")),
+                        kind="params-violated-reported-late")
         if said != stage:
             self._v("message-stage", dict(base, what="message names the wrong stage", said=said, observed=stage, msg=msg[:300]))
         kind = f.get("kind", "fn")
@@ -229,6 +257,34 @@ class Observer:
         self.stats.inc("stage:" + stage)
 
 
+def _family_model_with_extra(scn):
+    """C02's declarative model, extended by the extra PyTree / Union parameter: the tree contributes one
+    item per leaf (structure name T is new in every call, so it never constrains); the union contributes the
+    alternative selected by the value's rank (alternatives are mutually exclusive by rank)."""
+    fam = scn["family"]
+    pitems = []
+    for p, v in zip(fam["params"], fam["vals"][:-1]):
+        pitems.append(({"atype": p["atype"], "dtype": p["dtype"], "dims": dims_text(p["toks"])}, v))
+    ritem = ({"atype": fam["ret"]["atype"], "dtype": fam["ret"]["dtype"], "dims": dims_text(fam["ret"]["toks"])}, fam["vals"][-1])
+    reject = False
+    if scn.get("extra") == "tree":
+        for sh in scn["extra_leaves"]:
+            pitems.append(({"atype": "np", "dtype": "Float", "dims": "a"}, {"t": "np", "s": sh, "d": "float32"}))
+    elif scn.get("extra") == "union":
+        sh = scn["extra_union_shape"]
+        if len(sh) == 2:
+            pitems.append(({"atype": "np", "dtype": "Float", "dims": "c b"}, {"t": "np", "s": sh, "d": "float32"}))
+        elif len(sh) == 1:
+            pitems.append(({"atype": "np", "dtype": "Float", "dims": "c"}, {"t": "np", "s": sh, "d": "float32"}))
+        else:
+            reject = True
+    args = {"k": fam["k"]}
+    full, ponly = model.call_model(pitems, ritem, args), model.call_model(pitems, None, args)
+    if reject:
+        full, ponly = (full - {"accept"}) | {"reject"}, (ponly - {"accept"}) | {"reject"}
+    return full, ponly
+
+
 def _is_int(v):
     try:
         int(v)
@@ -243,8 +299,9 @@ def execute(scn):
     old = jaxtyping.config.jaxtyping_remove_typechecker_stack
     jaxtyping.config.update("jaxtyping_remove_typechecker_stack", bool(scn.get("stack_switch")))
     try:
+        plan = {(f["site"], f["k"]): f["exc"] for f in scn.get("faults", [])}
         interp, runs, sc, states = ctxsim.run_threads(scn, scn["threads"], {"kind": "solo"}, rng(scn["seed"], "s"),
-                                                      observer=obs, yield_on_seams=False)
+                                                      observer=obs, yield_on_seams=False, plans=[plan])
     finally:
         jaxtyping.config.update("jaxtyping_remove_typechecker_stack", old)
     stats.inc("runs")
@@ -252,9 +309,11 @@ def execute(scn):
     fam = scn["family"]
     # 'iff violated' on pure array families (shared with C02)
     viols = list(obs.viol)
-    if not scn.get("extra") and not scn.get("misuse"):
-        full, ponly = c02.family_model(scn)
+    if not scn.get("misuse"):
+        full, ponly = _family_model_with_extra(scn)
         for sib, t in zip(scn["siblings"], [t for t in runs[0].transcript if t[1] == "call"]):
+            if t[0] in obs.faulted:
+                continue
             v = c02.verdict(t[2])
             allowed = full if sib["with_ret"] else ponly
             if v not in allowed and len(viols) < 4:
